@@ -65,12 +65,12 @@ Fixpoint pad (n : nat) (z : Z) (acc : string) : string :=
   | S n' => pad n' (z / 10) (String (digit z) acc)
   end.
 
-Open Scope string_scope.
+Local Open Scope string_scope.
 Definition iso_utc (x : dt) : string :=
   pad 4 (yr x) "" ++ "-" ++ pad 2 (mo x) "" ++ "-" ++ pad 2 (dy x) "" ++ "T" ++
   pad 2 (hh x) "" ++ ":" ++ pad 2 (mi x) "" ++ ":" ++ pad 2 (ss x) "" ++
   (if (us x =? 0)%Z then "" else "." ++ pad 6 (us x) "") ++ "+00:00".
-Close Scope string_scope.
+Local Close Scope string_scope.
 
 Inductive tres := TOk (s : string) | TValueError | TOverflow.
 
